@@ -23,7 +23,8 @@ func init() {
 	})
 	register("C07", &propDef{
 		Title: "Accepted remote addresses always satisfy the documented transport policy",
-		Rules: []func(*Checker){ruleC07Routes, ruleC07Schemes, ruleC07Query, ruleC06SubpathOnly("C07.subpath"), ruleAddrErrors("C07.errors"), ruleNameAgreement("C07.names", "sourceaddrs"), ruleURLFields("C07.urlfields")},
+		Rules: []func(*Checker){ruleC07Routes, ruleC07Schemes, ruleC07Query, ruleC06SubpathOnly("C07.subpath"), ruleAddrErrors("C07.errors"), ruleNameAgreement("C07.names", "sourceaddrs"), ruleURLFields("C07.urlfields"),
+			aliasRuleFiltered(ruleC06FinalPattern, "C06.finalpattern", "C07.finalclass", 1, func(o Oblig) bool { return strings.Contains(o.Key, "parser's groups") })},
 		NotDecided: []string{
 			"'every address that follows the documented grammar is accepted' (needs the grammar)",
 			"shorthand expansion correctness; query-argument counting beyond the presence of the tests (map contents)",
@@ -1724,7 +1725,7 @@ func (p *Prog) wrapsParseVersion(o *types.Func) bool {
 // C07.urlfields — each syntactic check of a URL looks at the part it is about.
 func ruleURLFields(id string) func(*Checker) {
 	return func(c *Checker) {
-		c.rule(id, "In the address package: the argument of url.ParseQuery is the RawQuery field of the URL; the doubled-slash test of a remote URL is made on EscapedPath() of the URL that is kept (the re-parsed one, after it replaced the caller's); a field of a URL overwritten with a case-folded value is overwritten with its own. net/url has a dozen same-typed string fields and accessors: a query check made on Host, a slash check made on the fragment, Scheme lower-cased into RawPath all compile.", 4)
+		c.rule(id, "In the address package: the argument of url.ParseQuery is the RawQuery field of the URL; the doubled-slash test of a remote URL is made on EscapedPath() of the URL that is kept (the re-parsed one, after it replaced the caller's); a field of a URL overwritten with a case-folded value is overwritten with its own. net/url has a dozen same-typed string fields and accessors: a query check made on Host, a slash check made on the fragment, Scheme lower-cased into RawPath all compile. The only part of a URL whose absence is a reason to refuse an address is its Scheme.", 5)
 		p := c.P
 		for _, fn := range p.Funcs {
 			if fn.Package() == nil || fn.Package().Pkg.Path() != p.PkgPath("sourceaddrs") {
@@ -1755,6 +1756,43 @@ func ruleURLFields(id string) func(*Checker) {
 				if reparsed != nil && len(cl.Call.Args) > 0 {
 					c.check(canon(cl.Call.Args[0]) == reparsed, id, name, "doubled slash looked for in the re-parsed URL", p.Pos(ci.Pos()), "the URL tested is the result of url.Parse(u.String())", "the doubled-slash test is made on the caller's URL value, not on its re-parsed canonical form: a hand-assembled URL that hides a path in another field passes, and what it prints does not parse back")
 				}
+			}
+			// emptiness refusals: the only part of a URL an address must have is its scheme
+			for _, b := range fn.Blocks {
+				ifi, ok := b.Instrs[len(b.Instrs)-1].(*ssa.If)
+				if !ok {
+					continue
+				}
+				cnd, neg := stripNot(ifi.Cond)
+				bo, ok := cnd.(*ssa.BinOp)
+				if !ok || (bo.Op != token.EQL && bo.Op != token.NEQ) {
+					continue
+				}
+				if e, isC := constString(bo.Y); !isC || e != "" {
+					continue
+				}
+				ld, ok := canon(bo.X).(*ssa.UnOp)
+				if !ok || ld.Op != token.MUL {
+					continue
+				}
+				fa, ok := ld.X.(*ssa.FieldAddr)
+				if !ok || !isURLField(fa) {
+					continue
+				}
+				empty := 0
+				if (bo.Op == token.NEQ) != neg {
+					empty = 1
+				}
+				refuses := true
+				for _, r := range successReturns(fn) {
+					if !guarded(r.Block(), []Edge{{b, 1 - empty}}) {
+						refuses = false
+					}
+				}
+				if !refuses || len(successReturns(fn)) == 0 {
+					continue
+				}
+				c.check(fieldOf(fa).Name() == "Scheme", id, name, "URL part that must be present: "+fieldOf(fa).Name(), p.Pos(ifi.Cond.Pos()), "an address without a scheme is refused", "an address is refused because the "+fieldOf(fa).Name()+" of its URL is empty: the grammar demands a scheme and nothing else (https://example.com has no path, git::https:///x no host — both are handed out by MakeRemoteSource and would no longer parse back), and the address without a scheme this test was written for is no longer caught here")
 			}
 			eachInstr(fn, func(in ssa.Instruction) {
 				st, ok := in.(*ssa.Store)
